@@ -468,10 +468,13 @@ theorem decryptO_eq (cap nonceLen : Nat) (c : Crypto) (cd : Codec) (P : EncParam
           cases verifyHeader c cd P _ ml cl with
           | some e => rfl
           | none =>
-            simp only []
-            rw [processSegmentsO_eq cap (P.segSize + P.overhead) P.maxSeg hcap2 _ _
-              (fun d i l _ _ => decryptSegO_eq c P nonceLen m.cph _ m.np (hn m.np) (ho _ m.np) d i l) r']
-            rfl
+            simp only [Bool.true_and]
+            by_cases hu : unwrapFailed true P o m (if o.keyName.isEmpty then m.keyName else o.keyName) = true
+            · simp only [hu, if_true]
+            · simp only [hu, Bool.false_eq_true, if_false]
+              rw [processSegmentsO_eq cap (P.segSize + P.overhead) P.maxSeg hcap2 _ _
+                (fun d i l _ _ => decryptSegO_eq c P nonceLen m.cph _ m.np (hn m.np) (ho _ m.np) d i l) r']
+              rfl
 
 
 /-! ### termination: the fuel of the model loops is never exhausted -/
